@@ -44,14 +44,16 @@ Definition C09_e2e_full_statement : Prop :=
     tcp_server_run sk cfg eof l chunks = result l' (snd (spec_run (cf_single cfg) su qs)) st' /\
     units_rel l' (fst (spec_run (cf_single cfg) su qs)).
 
-(* PROVED: the data-access function codes ([req_ok]: the message is one of FC 1-6, 15, 16, 22, 23).
+(* PROVED: the data-access function codes and the unassigned ones ([req_ok] / [body_ok]: the body is a
+   message of FC 1-6, 15, 16, 22, 23 whose fields fit, or any PDU of at most 253 bytes whose function
+   code 1..127 is not in ServerDecoder's table — answered with exception 01, nothing changes).
    Missing w.r.t. the full statement: the request classes whose execute() has no model in Exec.v
    (FC 7, 8, 11, 12, 17, 20, 21, 24, 43) and no abstract semantics in ExecSpec.v; nothing else
    (no hypothesis on chunking, layouts, ids, quantities or the front-end had to be added). *)
 Theorem C09_e2e_tcp : forall sk cfg eof (l : units slavectx) (su : sunits) (qs : list e2e_req) (chunks : list bytes),
   In sk tcp_fes ->
   units_rel l su ->                                        (* stores abstract to su; C04 invariant; 16-bit cells *)
-  Forall (req_ok sk cfg (u_keys slavectx l)) qs ->         (* ids in range, FC 1-6/15/16/22/23, fields fit, unit served *)
+  Forall (req_ok sk cfg (u_keys slavectx l)) qs ->         (* ids in range, FC 1-6/15/16/22/23 or unassigned, unit served *)
   concat (eff_chunks eof chunks) = concat (map req_adu qs) ->      (* ANY division into reads *)
   exists l' st',
     tcp_server_run sk cfg eof l chunks = result l' (snd (spec_run (cf_single cfg) su qs)) st' /\
@@ -79,6 +81,13 @@ Theorem C09_e2e_decode_attrs : forall m w, wreq_of_msg m = Some w -> spec_wf m =
               req_of_obj o = Some r /\ ExecView.decode_attrs w = Ok r.
 Proof. exact decode_request. Qed.
 Print Assumptions C09_e2e_decode_attrs.
+
+(* … and a PDU with an unassigned function code decodes to IllegalFunctionRequest *)
+Theorem C09_e2e_decode_body : forall b w, body_ok b w ->
+  exists o r, py_decode true (sreq_pdu b) = Ok o /\ obj_fc o = Ok (wfc w) /\
+              req_of_obj o = Some r /\ ExecView.decode_attrs w = Ok r.
+Proof. exact decode_body. Qed.
+Print Assumptions C09_e2e_decode_body.
 
 (* C04 -> C01: a response whose spec view is s becomes an object that stands for the spec message of s *)
 Theorem C09_e2e_response_object : forall o s,
@@ -108,7 +117,8 @@ Proof. exact handle_one_spec. Qed.
 Print Assumptions C09_e2e_one_request.
 
 (* ---- non-vacuity: one context (single mode), three requests — write register 2 := 0x1234 to unit 1,
-   read registers 1..3 from unit 17, read coils 8..10 (outside the 10 configured coils) — cut 3 bytes
+   read registers 1..3 from unit 17, read coils 8..10 (outside the 10 configured coils), a PDU with the
+   unassigned function code 0x41 — cut 3 bytes
    into the first MBAP header, in the middle of the second frame, with an empty read in between
    (asyncio/Twisted style, eof = false).  Evaluated: the model writes exactly the echo, the three
    registers, and exception 0x81/02; the hypotheses of C09_e2e_tcp_stores hold. *)
@@ -120,7 +130,8 @@ Definition nv_cfg : scfg := {| cf_single := true; cf_bcast := false; cf_ignore :
 Definition nv_reqs : list e2e_req :=
   [{| q_tid := 4660; q_pid := 0; q_uid := 1; q_body := QMsg (MWriteRegReq 2 4660) |};
    {| q_tid := 2; q_pid := 0; q_uid := 17; q_body := QMsg (MReadHoldingReq 1 3) |};
-   {| q_tid := 65535; q_pid := 7; q_uid := 1; q_body := QMsg (MReadCoilsReq 8 3) |}].
+   {| q_tid := 65535; q_pid := 7; q_uid := 1; q_body := QMsg (MReadCoilsReq 8 3) |};
+   {| q_tid := 9; q_pid := 0; q_uid := 1; q_body := QRaw 65 [1; 2]%N |}].
 Definition nv_stream : bytes := concat (map req_adu nv_reqs).
 Definition nv_chunks : list bytes := [firstn 3 nv_stream; []; firstn 15 (skipn 3 nv_stream); skipn 18 nv_stream].
 
@@ -132,7 +143,8 @@ Example C09_e2e_nonvacuous :
   e_out (tcp_server_run GenServer.aio_tcp nv_cfg false [(0, nv_ctx)] nv_chunks) =
     [18; 52; 0; 0; 0; 6; 1; 6; 0; 2; 18; 52;                    (* echo of the write, tid 0x1234, unit 1 *)
      0; 2; 0; 0; 0; 9; 17; 3; 6; 0; 0; 18; 52; 0; 0;            (* registers 1..3 = 0, 0x1234, 0, unit 17 *)
-     255; 255; 0; 0; 0; 3; 1; 129; 2]%N /\                      (* exception 02, protocol id 0 *)
+     255; 255; 0; 0; 0; 3; 1; 129; 2;                           (* exception 02, protocol id 0 *)
+     0; 9; 0; 0; 0; 3; 1; 193; 1]%N /\                          (* unassigned function 0x41: exception 01 *)
   snd (spec_run true (abs_units [(0, nv_ctx)]) nv_reqs) =
     e_out (tcp_server_run GenServer.aio_tcp nv_cfg false [(0, nv_ctx)] nv_chunks).
 Proof.
@@ -140,6 +152,8 @@ Proof.
   split. { constructor; [|constructor]. split.
            - intros t; destruct t; eexists; (split; [reflexivity|cbn; lia]).
            - repeat constructor; unfold u16v; lia. }
-  split. { repeat constructor; cbn; try lia; try (eexists; eexists; repeat split; reflexivity); tauto. }
+  split. { unfold nv_reqs. repeat (apply Forall_cons || apply Forall_nil);
+           (split; [cbn; lia|]; split; [cbn; lia|]; split; [cbn; lia|];
+            split; [eexists; cbn; repeat split; try reflexivity; lia | split; [reflexivity | cbn; tauto]]). }
   split; vm_compute; [reflexivity|split; reflexivity].
 Qed.
